@@ -210,8 +210,17 @@ func genField(t *rapid.T, e *spec.Entry, fv reflect.Value, depth int, label stri
 		}
 		m := reflect.MakeMapWithSize(fv.Type(), n)
 		start := rapid.IntRange(0, len(keyPool)-1).Draw(t, label+"/k0")
+		// one time in four the first key is the NAME OF A SIBLING ATTRIBUTE of the object that holds the map
+		// (a map key and an attribute name live in different name spaces)
+		sib := ""
+		if len(siblingAttrs) > 0 && n > 0 && coin(t, 1, 4, label+"/sibkey") {
+			sib = siblingAttrs[rapid.IntRange(0, len(siblingAttrs)-1).Draw(t, label+"/sibname")]
+		}
 		for i := 0; i < n; i++ {
 			k := keyPool[(start+i)%len(keyPool)]
+			if i == 0 && sib != "" {
+				k = sib
+			}
 			if fv.Type().Elem().Kind() == reflect.Ptr && coin(t, 1, 8, label+"["+k+"]/nil") {
 				m.SetMapIndex(reflect.ValueOf(k), reflect.Zero(fv.Type().Elem())) // key present, nil value
 				continue
@@ -259,7 +268,16 @@ func declOf(o spec.OneofRef, x spec.Excl) string {
 
 // genInto fills struct rv (addressable) with a value drawn for node n. Prior contents are
 // overwritten field by field (fields of nil nullable embedded parents are left alone).
+// siblingAttrs holds the attribute names of the node being filled (read by genField for map keys).
+var siblingAttrs []string
+
 func genInto(t *rapid.T, n *spec.Node, rv reflect.Value, depth int, label string) {
+	saved := siblingAttrs
+	siblingAttrs = nil
+	for _, e := range n.Entries {
+		siblingAttrs = append(siblingAttrs, e.Attr)
+	}
+	defer func() { siblingAttrs = saved }()
 	embedNil := map[string]bool{}
 	parentNil := func(via []spec.Via) bool {
 		for i, v := range via {
@@ -336,7 +354,7 @@ func genInto(t *rapid.T, n *spec.Node, rv reflect.Value, depth int, label string
 		genField(t, e, fv, depth, label+"."+e.Go)
 	}
 	for _, x := range n.Excluded {
-		if x.F.Kind == spec.KMessage || x.F.Embed || parentNil(x.Via) {
+		if x.F.Kind == spec.KMessage || x.F.Embed || x.F.MapKey != "" || parentNil(x.Via) {
 			continue
 		}
 		h := holderOf(rv, x.Via, true)
@@ -426,7 +444,13 @@ func genTFScalar(t *rapid.T, f *spec.Field, typ tftypes.Type, label string) tfty
 		return tftypes.NewValue(typ, bigUint(pick(t, u64Pool, label)))
 	case spec.KBool:
 		return tftypes.NewValue(typ, rapid.Bool().Draw(t, label))
-	case spec.KString, spec.KBytes:
+	case spec.KBytes:
+		// a byte string need not be text on this side either (the attribute value is a Go string)
+		if coin(t, 1, 5, label+"/raw") {
+			return tftypes.NewValue(typ, pick(t, rawBytesPool, label+"/rawv"))
+		}
+		return tftypes.NewValue(typ, pick(t, strPool, label))
+	case spec.KString:
 		return tftypes.NewValue(typ, pick(t, strPool, label))
 	case spec.KEnum:
 		n := len(program.Enum(f.Ref).Values)
